@@ -16,10 +16,26 @@ IsBaseLE(ds, b, a) ==
   /\ (Len(ds) > 0 => ~IsZero(ds[Len(ds)]))
   /\ HornerLE(ds, b) = a
 
+\* The digit sequence D seen through the standard Iterator adaptors (their documented meaning: skip(k) drops k items,
+\* step_by(2) keeps every other item from the first, nth(k) returns item k and consumes everything up to it -- everything, if
+\* there is no item k --, last / count / size_hint agree with the length).  it = the ten recorded sequences.
+AdaptorsOK(it, D) ==
+  LET n == Len(D)
+      TailFrom(i) == IF i > n THEN <<>> ELSE SubSeq(D, i, n)
+  IN /\ Len(it) = 10
+     /\ it[1] = TailFrom(2) /\ it[2] = <<>> /\ it[3] = <<>>
+     /\ it[4] = [i \in 1..((n + 1) \div 2) |-> D[2 * i - 1]]
+     /\ it[5] = (IF n >= 2 THEN <<D[2]>> ELSE <<>>) /\ it[6] = TailFrom(3)
+     /\ it[7] = <<>> /\ it[8] = <<>>
+     /\ it[9] = (IF n >= 1 THEN <<D[n]>> ELSE <<>>)
+     /\ it[10] = <<FromNat(n), One, One>>
+
 CheckToBase(e) ==
   LET b == e.base  a == e.a  bad == Lt(b, <<2>>)
   IN [ le |-> IF bad THEN Panics(e, "le") ELSE Has(e, "le") /\ IsBaseLE(e.le, b, a),
-       be |-> IF bad THEN Panics(e, "be") ELSE Has(e, "be") /\ IsBaseLE(Rev(e.be), b, a) ]
+       be |-> IF bad THEN Panics(e, "be") ELSE Has(e, "be") /\ IsBaseLE(Rev(e.be), b, a),
+       le_it |-> bad \/ (Has(e, "le") /\ Has(e, "le_it") /\ AdaptorsOK(e.le_it, e.le)),
+       be_it |-> bad \/ (Has(e, "be") /\ Has(e, "be_it") /\ AdaptorsOK(e.be_it, e.be)) ]
 
 (* from_base: InvalidBase for b < 2; a digit >= b is an error (InvalidDigit, *)
 (* or Overflow when the digits consumed before it already overflow: the      *)
